@@ -215,9 +215,11 @@ def exec_INP(t):
 
 
 INVALID = {
-    'overflow': ['clip', 'SATURATE', 1, None], 'rounding': ['round', 'nearest', 3, None], 'shifting': ['grow', 0], 'op_method': ['fast', 1],
-    'op_input_size': ['big', 2], 'op_sizing': ['tight', 5], 'const_op_sizing': ['tight', 5], 'array_output_type': ['list', 1],
-    'array_op_method': ['fast', 0], 'dtype_notation': ['R', 3], 'n_word_max': [0, -1, 'x', 2.5], 'max_error': [-1, 'x'],
+    # (a keyword in another case or with blanks around it is not one of the valid values: the library compares them exactly)
+    'overflow': ['clip', 'SATURATE', 1, None, 'Wrap', ' wrap'], 'rounding': ['round', 'nearest', 3, None, 'Floor', 'trunc '], 'shifting': ['grow', 0, 'Expand', 'TRUNC'],
+    'op_method': ['fast', 1, 'RAW', 'Repr'], 'op_input_size': ['big', 2, 'Best', 'SAME'], 'op_sizing': ['tight', 5, 'Optimal', 'same '],
+    'const_op_sizing': ['tight', 5, 'Same', 'LARGEST'], 'array_output_type': ['list', 1, 'FXP', 'Array'],
+    'array_op_method': ['fast', 0, 'Raw', 'REPR'], 'dtype_notation': ['R', 3, 'q', 'FXP'], 'n_word_max': [0, -1, 'x', 2.5], 'max_error': [-1, 'x'],
     'op_out': [5, 'x'], 'op_out_like': [5, 'x'], 'array_op_out': [5], 'array_op_out_like': ['x'],
 }
 
